@@ -110,7 +110,7 @@ package stor
 
 //@ func ReadSmallOffset(buf) (r)
 //@   requires len(buf) >= 5
-//@   ensures! r == buf[0] + 256 * buf[1] + 65536 * buf[2] + 16777216 * buf[3] + 4294967296 * buf[4]
+//@   ensures! r == uint64(buf[0]) + 256 * uint64(buf[1]) + 65536 * uint64(buf[2]) + 16777216 * uint64(buf[3]) + 4294967296 * uint64(buf[4])
 
 //@ lemma! smalloffset_roundtrip(n uint64): n < 1099511627776 ==> byteAt(n, 0) + 256 * byteAt(n, 1) + 65536 * byteAt(n, 2) + 16777216 * byteAt(n, 3) + 4294967296 * byteAt(n, 4) == n
 
@@ -222,6 +222,10 @@ package stor
 // LastOffset finds an occurrence of str that lies completely below off and inside one chunk;
 // FirstOffset one that starts at or after off. 0 means not found.
 //@ spec storMapped(s *Stor) bool = 0 < s.shift && s.shift < 40 && s.chunksize == pow2(s.shift) && typeis(s.chunks.v, "[][]byte") && len(unbox(s.chunks.v, "[][]byte")) < 1000000 && (forall k :: 0 <= k && k < len(unbox(s.chunks.v, "[][]byte")) ==> len(unbox(s.chunks.v, "[][]byte")[k]) == s.chunksize)
+// storMappedP: every chunk but the last is full, the last one may be partial - a store opened read-only (repair,
+// history) is mapped exactly up to the end of the file; extent(s) is the number of mapped bytes
+//@ spec storMappedP(s *Stor) bool = storShape(s) && (forall k :: 0 <= k && k + 1 < len(cks(s)) ==> len(cks(s)[k]) == s.chunksize) && (len(cks(s)) > 0 ==> 0 < len(cks(s)[len(cks(s)) - 1]) && len(cks(s)[len(cks(s)) - 1]) <= s.chunksize)
+//@ spec extent(s *Stor) uint64 = len(cks(s)) == 0 ? 0 : (uint64(len(cks(s)) - 1) << uint64(s.shift)) + uint64(len(cks(s)[len(cks(s)) - 1]))
 // (the position of the match is stated with the chunk number rc and the position ri inside the chunk as ghost results;
 // that the bytes at that position equal the marker follows from the assumed contract of bytes.Index/LastIndex and was
 // proved, but the obligation was unstable (9 s to 140 s) and is not part of the check:
@@ -230,28 +234,31 @@ package stor
 //@   mode bv
 //@ func (s *Stor) LastOffset(off, str, stop) (r)
 //@   mode bv
-//@   requires s != nil && storMapped(s) && off <= uint64(len(unbox(s.chunks.v, "[][]byte"))) << uint64(s.shift) && 0 < len(str) && len(str) <= s.chunksize
+//@   requires s != nil && storMappedP(s) && off <= extent(s) && 0 < len(str) && len(str) <= s.chunksize
 //@   ensures! below: r != 0 ==> r < off && r + uint64(len(str)) <= off
-//@   ensures! one_chunk: r != 0 ==> (r >> uint64(s.shift)) == ((r + uint64(len(str)) - 1) >> uint64(s.shift)) && int(r >> uint64(s.shift)) < len(unbox(s.chunks.v, "[][]byte"))
+//@   ensures! one_chunk: r != 0 ==> (r >> uint64(s.shift)) == ((r + uint64(len(str)) - 1) >> uint64(s.shift)) && int(r >> uint64(s.shift)) < len(cks(s))
 //@   ghost rc int = c
 //@   ghost ri int = i
-//@   ensures! found_where: r != 0 ==> 0 <= rc && rc < len(unbox(s.chunks.v, "[][]byte")) && 0 <= ri && r == uint64(rc) * s.chunksize + uint64(ri) && uint64(ri) + uint64(len(str)) <= s.chunksize
-//@   loop 0 invariant -1 <= c && c < len(chunks) && 0 < n && n <= s.chunksize && uint64(c) * s.chunksize + n <= off
+//@   ensures! found_where: r != 0 ==> 0 <= rc && rc < len(cks(s)) && 0 <= ri && r == uint64(rc) * s.chunksize + uint64(ri) && uint64(ri) + uint64(len(str)) <= uint64(len(cks(s)[rc]))
+//@   ensures! in_chunk: r != 0 ==> (r & (s.chunksize - 1)) + uint64(len(str)) <= uint64(len(cks(s)[r >> uint64(s.shift)]))
+//@   loop 0 invariant -1 <= c && c < len(chunks) && 0 < n && n <= s.chunksize && uint64(c) * s.chunksize + n <= off && (c >= 0 ==> n <= uint64(len(chunks[c])))
 //@   loop 0 invariant window: (off & (s.chunksize - 1)) != 0 ==> n == (c == int(off >> uint64(s.shift)) ? (off & (s.chunksize - 1)) : s.chunksize)
 //@   loop 0 invariant window0: (off & (s.chunksize - 1)) == 0 ==> n == s.chunksize
 //@   loop 0 decreases c + 1
 //@ func (s *Stor) FirstOffset(off, str) (r)
 //@   mode bv
-//@   requires s != nil && storMapped(s) && off < uint64(len(unbox(s.chunks.v, "[][]byte"))) << uint64(s.shift) && 0 < len(str) && len(str) <= s.chunksize
+//@   requires s != nil && storMappedP(s) && off <= extent(s) && 0 < len(str) && len(str) <= s.chunksize
 //@   ensures! at_or_after: r != 0 ==> r >= off
 //@   ensures! one_chunk: r != 0 ==> (r >> uint64(s.shift)) == ((r + uint64(len(str)) - 1) >> uint64(s.shift)) && int(r >> uint64(s.shift)) < len(unbox(s.chunks.v, "[][]byte"))
 //@   ghost rc int = c
 //@   ghost ri uint64 = n + uint64(i)
-//@   ensures! found_where: r != 0 ==> 0 <= rc && rc < len(unbox(s.chunks.v, "[][]byte")) && r == uint64(rc) * s.chunksize + ri && ri + uint64(len(str)) <= s.chunksize
-//@   loop 0 invariant 0 <= c && c <= len(chunks) && n < s.chunksize && (c < len(chunks) ==> uint64(c) * s.chunksize + n >= off) && int(off >> uint64(s.shift)) <= c && n == (c == int(off >> uint64(s.shift)) ? (off & (s.chunksize - 1)) : 0)
+//@   ensures! found_where: r != 0 ==> 0 <= rc && rc < len(unbox(s.chunks.v, "[][]byte")) && r == uint64(rc) * s.chunksize + ri && ri + uint64(len(str)) <= uint64(len(cks(s)[rc]))
+//@   ensures! in_chunk: r != 0 ==> (r & (s.chunksize - 1)) + uint64(len(str)) <= uint64(len(cks(s)[r >> uint64(s.shift)]))
+//@   loop 0 invariant 0 <= c && c <= len(chunks) && n < s.chunksize && (c < len(chunks) ==> n <= uint64(len(chunks[c]))) && (c < len(chunks) ==> uint64(c) * s.chunksize + n >= off) && int(off >> uint64(s.shift)) <= c && n == (c == int(off >> uint64(s.shift)) ? (off & (s.chunksize - 1)) : 0)
 // (window: in the first chunk the search starts at the in-chunk position of off, in every later chunk at 0.
 // Completeness - no occurrence is skipped - was attempted with an uninterpreted occurrence predicate and did not discharge.)
 //@   loop 0 decreases len(chunks) - c
 //@ func (s *Stor) Size() (r)
 //@   assumed
 //@   pure
+//@   ensures r == s.size.v
